@@ -350,7 +350,6 @@ PROPS["C11"] = {
     "lean_modules": ["EcModel.Props.C11"],
     "harness": ["c11"],
     "t1_facts": ["wkc", "WkcSites", "WrappedRead", "WrappedWrite", "ReceivedPdu::wkc", "RegisterAddress", "AlControl packed length", "push_state_checks"],
-    "known_keys_expected": ["c11/ok-despite-mismatch/grp/FPRD:0130"],
     "modelled": "ReceivedPdu::{wkc, maybe_wkc}; WrappedRead::{new, ignore_wkc, with_wkc, receive, receive_slice, receive_wkc}; "
                 "WrappedWrite::{new, ignore_wkc, with_wkc, send, send_receive, send_receive_slice}; SubDeviceRef::{register_read, "
                 "register_write, state, status (incl. the poll order of futures_lite::try_zip), wait_for_state, "
@@ -359,7 +358,7 @@ PROPS["C11"] = {
                 "MainDevice::wait_for_state; SubDeviceGroup::{is_state, wait_for_state, transition_to, request_into_op} "
                 "(GroupState.lean); TimeoutFuture (deadline before inner future)",
     "rule": "corpus first (every composite path healthy / first checked datagram unanswered / an exempt datagram unanswered / "
-            "device dropped out / frame lost, and the witnesses of the known gap), then random cases, half of them builder methods "
+            "device dropped out / frame lost, and the former witnesses of the repaired status-poll gap), then random cases, half of them builder methods "
             "(receive, receive_slice, send, send_receive, send_receive_slice on FPRD/APRD/BRD/FRMW/FPWR/APWR/BWR/LWR/LRW with "
             "expected = default / ignore_wkc / with_wkc(0..3)) against 0-4 bare devices (absent addresses, duplicate station "
             "addresses => counter 2, broadcasts => counter n) with the wire setting/incrementing the counter or losing the frame; "
@@ -376,7 +375,7 @@ PROPS["C11"] = {
     "assumptions": [
         "one MainDevice task (responses are matched to requests: C01); retries disabled (RetryBehaviour::None, the default)",
         "the CoE layer above the mailbox exchange (header parsing, segmentation) is C15/C16: sdo_checked is about the raw response handed to it",
-        "group transitions: the status polls of is_state are NOT checked by the code (known finding); the request phase is",
+        "group transitions: a status poll placed behind one that reports another state in the same frame is never read by is_state (nothing of it is used); the monitor only judges polls that were read",
     ],
 }
 
@@ -392,13 +391,14 @@ MANIFEST_TEXT["C11"] = {
             "'mailbox full' poll), md_wait_checked (counter = number of SubDevices), absent_device_never_ok (no path reports success "
             "when no response carries counter 1), group_transition_absent. Exempt set as data (T1): exempt_sites — every "
             ".ignore_wkc() / .send( / .receive_wkc / raw-ReceivedPdu consumer in /repo/src equals the reviewed list, so a new silent "
-            "opt-out breaks the obligation; checked_methods — exactly receive, receive_slice, send_receive, send_receive_slice pass "
-            "through maybe_wkc(self.wkc). KNOWN GAP: group_status_poll_unchecked_counterexample — SubDeviceGroup::is_state never "
-            "looks at the counter of its status polls.",
+            "opt-out breaks the obligation (incl. rawPduSitesChecked: is_state applies ReceivedPdu::wkc(1) itself); checked_methods — "
+            "exactly receive, receive_slice, send_receive, send_receive_slice pass through maybe_wkc(self.wkc). Group transitions: "
+            "group_transition_checked (Ok ends on a round whose status datagrams all carried counter 1), "
+            "group_poll_mismatch_is_error, group_status_poll_former_witnesses (the inputs of the repaired gap).",
     "note": "Trusted: Lean kernel; hand translation of the paths (validated by diffing the result token on traces recorded from the "
             "real code under scripted wire faults); tools/extract_wkc.py (regex walk). The trace abstraction orders events as "
             "the datagrams are sent; for the two concurrent reads of status() the poll order of try_zip is modelled explicitly. "
-            "A working-counter fault on a group status poll surfaces as Timeout(StateTransition) at best, not as WorkingCounter.",
+            "",
     "technique": "Lean 4 proof (case analysis + induction over event traces) + regenerated exempt-site obligation + differential correspondence",
 }
 
@@ -467,8 +467,7 @@ PROPS["C16"] = {
     "harness": ["c16"],
     "both_profiles": True,
     "t1_facts": ["coe:"],
-    "known_keys_expected": ["c16/segment-length-underflow", "c16/sdo-info-length",
-                            "c16/sdo-info-endless", "c16/segment-endless"],
+    "known_keys_expected": ["c16/sdo-info-endless", "c16/segment-endless"],
     "modelled": "mailbox/coe/mod.rs: wait_for_mailboxes (stale drain, 10 rounds), wait_for_mailbox_response, mailbox_write_read "
                 "(HeadersRaw triage: assert_ne!, emergency, abort, type/index/sub-index validation, R::unpack, trim_front), "
                 "send_sdo_info_service (fragment loop, length - 8, response[..length], 0x1fffe buffer), sdo_write, sdo_write_array, "
@@ -690,7 +689,6 @@ PROPS["C10"] = {
     "lean_modules": ["EcModel.Props.C10"],
     "harness": ["c10"],
     "t1_facts": ["SubDeviceState discriminants", "RegisterAddress", "AlControl packed length", "push_state_checks", "WkcSites"],
-    "known_keys_expected": ["c10/ok-despite-error-indication"],
     "modelled": "push_state_checks; SubDeviceGroup::{is_state, wait_for_state, transition_to, request_into_op} (every into_* wrapper "
                 "is one transition_to); SubDeviceRef::request_subdevice_state_nowait; MainDevice::wait_for_state; "
                 "TxRxResponse::{group_state, group_in_single_state, is_in_state, all_op}; SubDeviceState <-> u8; AlControl decode; "
@@ -728,14 +726,15 @@ MANIFEST_TEXT["C10"] = {
             "wait_fuel_sufficient, md_wait_ok_implies_reported, states_as_reported, group_state_is_or. Summaries (element-wise since "
             "the fix of the OR-fold): single_state_iff, is_in_state_iff, all_op_iff (all_op r <-> r.states != [] and every entry "
             "is Op) without any side condition, former_or_fold_witnesses ([Op, None] and [Init, PreOp] now answered correctly). "
-            "error_indication_ignored_counterexample (known finding: is_state "
-            "ignores the error bit). T1: state_discriminants, group_constants.",
+            "error_indication_is_error + error_indication_former_witness (a status with the error bit ends the transition in "
+            "Err(StateTransition); Reports now means: counter 1, requested state, no error indication). T1: state_discriminants, "
+            "group_constants.",
     "note": "Trusted: Lean kernel; hand translation (validated by diffing result + frames sent on recorded traces of the real "
             "code, incl. the exhaustive summary enumeration through real tx_rx); the trace abstraction (events in send order; a "
             "deadline either before a frame is sent or while it is unanswered). 'Within the configured timeout' is checked on the "
             "virtual clock by the monitor, the theorem says the deadline event ends the call. The write read-back of FPWR is the "
-            "MainDevice's own bytes on a real wire, so refusal is in practice detected by the status rounds (timeout), which the "
-            "stall theorem covers.",
+            "MainDevice's own bytes on a real wire, so a refusal is in practice detected by the first status round that reads the "
+            "member's error indication (Err(StateTransition)) or, for a silent stall, by the timeout (stall theorem).",
     "technique": "Lean 4 proof (induction over frames/rounds/traces, bounded decide for the nibble algebra) + differential correspondence incl. exhaustive enumeration",
 }
 
@@ -1039,3 +1038,7 @@ PROPS["C01"]["harness"].append("c01d")
 PROPS["C01"]["drivers"]["c01d"] = "drv_micro"
 PROPS["C01"]["rule"] += (" || c01d: the same with futures of OTHER requests dropped at arbitrary points (no deadlines): a genuine first response to a "
                          "request that was not itself abandoned must be accepted; symptoms in runs where a drop hit the TX/RX window are attributed to C06's known finding")
+PROPS["C02"]["lean_modules"].append("EcModel.Props.C02Micro")
+MANIFEST_TEXT["C02"]["text"] += (" C02Micro: the same invariant proved DIRECTLY on the micro-step model (micro_inv_step over all 34 program counters, micro_inv_reachable "
+                                 "for every schedule): micro_mutual_exclusion, micro_at_most_one_inside_claim, micro_buffer_access_by_insider, "
+                                 "micro_buffer_changes_only_by_insider, micro_exactly_one_owner; counterexamples for abandonment inside the window.")
